@@ -38,6 +38,7 @@ type c03Attempt struct {
 	creds   c03Creds
 	credK   string
 	ip      string
+	spoof   string // HTTP only: address claimed in X-Forwarded-For / X-Real-IP (no proxy is trusted: must be ignored)
 
 	want       bool // the model's verdict
 	nontrivial bool // the verdict would flip with the other action or with another path of this case
@@ -59,7 +60,11 @@ func (a *c03Attempt) String() string {
 			v += "(" + a.other + ")"
 		}
 	}
-	return fmt.Sprintf("#%d %s%s %s %q creds=%s(%s) via %s from %s", a.idx, a.proto, v, a.action(), a.path, a.creds, a.credK, a.place, a.ip)
+	sp := ""
+	if a.spoof != "" {
+		sp = " claiming X-Forwarded-For " + a.spoof
+	}
+	return fmt.Sprintf("#%d %s%s %s %q creds=%s(%s) via %s from %s%s", a.idx, a.proto, v, a.action(), a.path, a.creds, a.credK, a.place, a.ip, sp)
 }
 
 // reader / source type names of the API for each protocol
@@ -93,9 +98,9 @@ func (a *c03Attempt) run(c *vcCore) {
 	case a.proto == "srt":
 		a.out = c03SRTRead(hp("srt"), a.place, a.path, a.creds)
 	case a.proto == "webrtc":
-		a.out = c03WHIP(hp("webrtc"), a.path, a.publish, a.place, a.creds)
+		a.out = c03WHIP(hp("webrtc"), a.path, a.publish, a.place, a.creds, a.spoof)
 	case a.proto == "hls":
-		a.out = c03HLS(hp("hls"), a.path, a.place, a.creds)
+		a.out = c03HLS(hp("hls"), a.path, a.place, a.creds, a.spoof)
 	}
 }
 
@@ -297,6 +302,12 @@ func c03GenAttempts(t *rapid.T, cs *c03Case, pubNames []string, n int) []*c03Att
 			}
 		}
 		ip := netip.MustParseAddr(a.ip)
+		if (a.proto == "webrtc" || a.proto == "hls") && rapid.IntRange(0, 2).Draw(t, l+"spoof") == 0 {
+			a.spoof = rapid.SampledFrom(append([]string{"10.9.1.1"}, ips...)).Draw(t, l+"spoofIP")
+			if a.spoof == a.ip {
+				a.spoof = "10.9.1.1"
+			}
+		}
 
 		pick := rapid.IntRange(0, len(cands)-1).Draw(t, l+"path")
 		if aimedPath != "" {
@@ -391,6 +402,12 @@ func TestVerifC03Authz(t *testing.T) {
 			if a.variant == "cross" || a.variant == "direct" {
 				cls["rtsp-read-"+a.variant+"-"+verdict] = true
 			}
+			if a.spoof != "" {
+				cls["spoofed-forwarded-for"] = true
+				if c03Admits(cs.users, a.creds, netip.MustParseAddr(a.spoof), a.publish, a.path, false) != a.want {
+					cls["spoofed-forwarded-for-would-flip-verdict"] = true
+				}
+			}
 			if netip.MustParseAddr(a.ip).IsLoopback() {
 				cls["from-loopback"] = true
 			} else {
@@ -399,6 +416,30 @@ func TestVerifC03Authz(t *testing.T) {
 			if a.nontrivial {
 				nt++
 				cls["nontrivial-"+verdict] = true
+			}
+			aip := netip.MustParseAddr(a.ip)
+			for _, u := range cs.users {
+				ipOK, permOK, credOK := c03UserParts(u, a.creds, aip, a.publish, a.path, a.proto == "rtsp" && cs.digest())
+				if permOK && credOK && len(u.nets) > 0 {
+					cls[fmt.Sprintf("decided-by-ip-list-%v", ipOK)] = true
+				}
+				if ipOK && permOK && (u.passEnc == "sha256" || u.passEnc == "argon2id") && a.creds.user == u.name {
+					cls[fmt.Sprintf("decided-by-hashed-password-%v", credOK)] = true
+				}
+				if ipOK && credOK && !u.anyUser {
+					for _, p := range u.perms {
+						if p.action == a.action() && strings.HasPrefix(p.path, "~") {
+							cls[fmt.Sprintf("decided-by-regex-permission-%v", permOK)] = true
+						}
+					}
+				}
+				if ipOK && credOK && !permOK {
+					for _, p := range u.perms {
+						if p.action != a.action() && (p.action == "publish" || p.action == "read") && c03PermGrants(c03Perm{a.action(), p.path}, a.publish, a.path) {
+							cls["has-permission-for-other-action-only"] = true
+						}
+					}
+				}
 			}
 			fmt.Fprintf(&sb, " %s=>%s;", a, verdict)
 		}
@@ -555,6 +596,35 @@ func c03RunBatch(t c03Fataler, cs *c03Case, attempts []*c03Attempt, header strin
 			}
 		}
 	}
+	// ---- HLS: the session created by an admitted playlist request is the only key to the media of that path
+	hlsProbed := map[string]bool{}
+	for _, a := range attempts {
+		if a.proto != "hls" || !a.out.accepted || hlsProbed[a.path] {
+			continue
+		}
+		hlsProbed[a.path] = true
+		uri := c03HLSMediaURI(a.out.body)
+		if uri == "" || !strings.Contains(uri, "?") {
+			fail("%s: the served playlist has no media playlist URI with a session parameter:\n%s", a, a.out.body)
+		}
+		base := "http://" + net.JoinHostPort(a.ip, fmt.Sprint(c.Ports["hls"])) + "/"
+		if st, body := c03HTTPGetStatus(base + a.path + "/" + uri); st != 200 {
+			fail("%s: media playlist %q of the session just created answers %d %s", a, uri, st, body)
+		}
+		bare := uri[:strings.Index(uri, "?")]
+		if st, _ := c03HTTPGetStatus(base + a.path + "/" + bare); st == 200 {
+			fail("%s: media playlist %q of path %q is served WITHOUT any session or credentials", a, bare, a.path)
+		}
+		for _, o := range cs.readNames {
+			if o == a.path {
+				continue
+			}
+			if st, _ := c03HTTPGetStatus(base + o + "/" + uri); st == 200 {
+				fail("%s: the session obtained for %q also opens the media playlist of path %q", a, a.path, o)
+			}
+		}
+	}
+
 	for name, a := range pubAttempt {
 		expectSource := a.want && a.proto != "webrtc" // a WHIP session becomes the source only after ICE/DTLS, which is not driven
 		var v c03PathView
@@ -616,6 +686,7 @@ func TestVerifC03Sanity(t *testing.T) {
 		users: []c03User{
 			{name: "alice", pass: "pw1A", passEnc: "plain", perms: []c03Perm{{"publish", "~^cam"}, {"read", "live/cam1"}}},
 			{name: "bob", pass: "hunter2", passEnc: "sha256", perms: []c03Perm{{"read", ""}}},
+			{name: "carol", pass: "x", passEnc: "plain", nets: []string{"10.9.0.0/16"}, perms: []c03Perm{{"read", ""}, {"publish", ""}}},
 		},
 		readNames: []string{"live/cam1", "mic7"},
 		pathsYAML: "  '~^live/(.*)$':\n    maxReaders: 60\n  all_others:\n",
@@ -649,6 +720,11 @@ func TestVerifC03Sanity(t *testing.T) {
 	add("hls", false, "live/cam1", "bearer", alice, "", "")
 	add("hls", false, "mic7", "basic", bob, "", "")
 	add("hls", false, "mic7", "basic", c03Creds{true, "bob", "hunter3"}, "", "")
+	// carol is only admitted from 10.9.0.0/16: claiming such an address in a proxy header must not help
+	add("hls", false, "mic7", "basic", c03Creds{true, "carol", "x"}, "", "")
+	attempts[len(attempts)-1].spoof = "10.9.1.1"
+	add("webrtc", true, "cam1/sub", "bearer", c03Creds{true, "carol", "x"}, "", "")
+	attempts[len(attempts)-1].spoof = "10.9.1.1"
 	for _, a := range attempts {
 		a.want = c03Admits(cs.users, a.creds, netip.MustParseAddr(a.ip), a.publish, a.path, false)
 	}
